@@ -39,7 +39,7 @@ def std_replay(body):
         res = body(B, cex['inputs'])
         detail = ''
         if isinstance(res, tuple):
-            res, detail = res
+            res, detail = res[0], res[1]
         return (not res), str(detail)
     return replay
 
